@@ -47,6 +47,12 @@ static void c01_model(mstr* m, const CHT* chars, u64 len) {
 #else
 #define NONUL_ASSUMPTIONS
 #endif
+/* large capacities: the pre-state lengths are restricted to two windows (short strings, strings within LENWIN of the capacity) - a stated bound */
+#ifdef LENWIN
+#define LENWIN_ASSUME VASSUME((len <= LENWIN || len + LENWIN >= CAP) && (len2 <= LENWIN || len2 + LENWIN >= CAP));
+#else
+#define LENWIN_ASSUME
+#endif
 /* PROLOGUE: symbolic pre-state and arguments.  CSTR: the argument string is NUL terminated (and contains no other NUL). */
 #define PROLOGUE(CSTR, PRE) \
   IN(u64, len); IN_ARR(CHT, chars, CAP + 1); IN_ARR(u8, stale, OBJSZ); \
@@ -54,6 +60,7 @@ static void c01_model(mstr* m, const CHT* chars, u64 len) {
   IN(u64, slen); IN_ARR(CHT, sarr, SMAX + 1); \
   IN(u64, n1); IN(u64, n2); IN(u64, n3); IN(u64, n4); IN(u32, ch0); \
   VASSUME(len <= CAP && len2 <= CAP && slen <= SMAX); \
+  LENWIN_ASSUME \
   VASSUME(PRE); \
   u32 ch = ch0 & CHMASK; \
   NONUL_ASSUMPTIONS \
